@@ -254,9 +254,11 @@ func planC12(g *Gen, tier string) ([]SQLCase, map[string]int, bool) {
 					stats["no-fault"]++
 					// the Tx variants: the caller's transaction is never finished, with or without a failure
 					for k := 0; k <= ncalls-1; k++ {
-						if k >= 1 && (k+n)%2 == 0 {
+						if k >= 1 && k <= ncalls-2 && (k+n)%2 == 0 {
 							// the context passed to ToSQLTxContext is cancelled once k calls have been made (k = 1: before
-							// the export's first call)
+							// the export's first call); only positions after which the export still has a call to make: a
+							// cancellation after its last call is not observed by the export at all, or - when that call was
+							// the existence query - is observed or not depending on when database/sql closes the rows
 							c := base
 							c.Tx, c.Entry, c.Cancel = true, "ToSQLTxContext", k
 							cases = append(cases, SQLCase{Kind: "w", Tag: "tx-variant-cancel", W: &c})
